@@ -1,6 +1,7 @@
 package ir
 
 import (
+	"go/token"
 	"go/types"
 	"strings"
 
@@ -326,7 +327,7 @@ func (f *Func) MustPassOnSuccess(x *ssa.BasicBlock) bool {
 		if k == SuccessExit || k == MaybeExit {
 			return false
 		}
-		for _, s := range b.Succs {
+		for _, s := range FeasibleSuccs(b) {
 			if !seen[s] {
 				seen[s] = true
 				work = append(work, s)
@@ -429,4 +430,53 @@ func (f *Func) sameValue(a, v ssa.Value) bool {
 	f.Org.build()
 	defs, entry := f.Org.reachingDefs(al, -1, ld)
 	return !entry && len(defs) == 1 && defs[0].Val == v
+}
+
+// FeasibleSuccs returns the successors of b that are not ruled out by a dominating branch on the very same
+// SSA condition value (if c {..}; if c {..}): when the edge d→t of an earlier `if c` dominates b, c is known at b.
+func FeasibleSuccs(b *ssa.BasicBlock) []*ssa.BasicBlock {
+	iff, ok := b.Instrs[len(b.Instrs)-1].(*ssa.If)
+	if !ok || len(b.Succs) != 2 {
+		return b.Succs
+	}
+	cond, neg := stripNot(iff.Cond)
+	for d := b.Idom(); d != nil; d = d.Idom() {
+		dif, ok := d.Instrs[len(d.Instrs)-1].(*ssa.If)
+		if !ok || len(d.Succs) != 2 || d.Succs[0] == d.Succs[1] {
+			continue
+		}
+		dc, dneg := stripNot(dif.Cond)
+		if dc != cond {
+			continue
+		}
+		for i, s := range d.Succs {
+			if len(s.Preds) == 1 && (s == b || s.Dominates(b)) {
+				// on this edge dc's truth is: i==0 → dif.Cond true
+				val := i == 0
+				if dneg {
+					val = !val
+				}
+				if neg {
+					val = !val
+				}
+				if val {
+					return b.Succs[:1]
+				}
+				return b.Succs[1:]
+			}
+		}
+	}
+	return b.Succs
+}
+
+func stripNot(v ssa.Value) (ssa.Value, bool) {
+	neg := false
+	for {
+		u, ok := v.(*ssa.UnOp)
+		if !ok || u.Op != token.NOT {
+			return v, neg
+		}
+		v = u.X
+		neg = !neg
+	}
 }
